@@ -801,7 +801,7 @@ class BcpInterface(MpfController):
         if callback:
             self.machine.events.post(event=name,
                                      callback=self.bcp_trigger,
-                                     name=kwargs.pop('callback'),
+                                     name=callback,
                                      **kwargs)
 
         else:
